@@ -37,12 +37,18 @@ pub struct TraceChecker<'a> {
     soft: BTreeSet<u32>,
     pub cand_calls: BTreeMap<u32, u32>,
     pub deps_calls: BTreeMap<u32, u32>,
+    /// requests the provider has answered (for ever), and requests issued in the current solve
+    /// that are still unanswered (a cancelled solve drops those; they may be re-issued later)
+    cand_answered: BTreeSet<u32>,
+    deps_answered: BTreeSet<u32>,
+    cand_open: BTreeSet<u32>,
+    deps_open: BTreeSet<u32>,
     pub events: u64,
 }
 
 impl<'a> TraceChecker<'a> {
     pub fn new(rf: &'a Ref<'a>) -> Self {
-        TraceChecker { rf, known_reqs: Default::default(), known_names: Default::default(), soft: Default::default(), cand_calls: Default::default(), deps_calls: Default::default(), events: 0 }
+        TraceChecker { rf, known_reqs: Default::default(), known_names: Default::default(), soft: Default::default(), cand_calls: Default::default(), deps_calls: Default::default(), cand_answered: Default::default(), deps_answered: Default::default(), cand_open: Default::default(), deps_open: Default::default(), events: 0 }
     }
     pub fn start_problem(&mut self, p: &Prob) {
         self.known_reqs.extend(p.reqs.iter().copied());
@@ -53,10 +59,18 @@ impl<'a> TraceChecker<'a> {
         self.events += 1;
         let u = self.rf.u;
         match e {
+            Ev::SolveStart(_) => {
+                self.cand_open.clear();
+                self.deps_open.clear();
+            }
+            Ev::CandRet(n) => {
+                self.cand_open.remove(n);
+                self.cand_answered.insert(*n);
+            }
             Ev::CandCall(n) => {
-                let c = self.cand_calls.entry(*n).or_insert(0);
-                *c += 1;
-                if *c > 1 {
+                *self.cand_calls.entry(*n).or_insert(0) += 1;
+                let dup = self.cand_answered.contains(n) || !self.cand_open.insert(*n);
+                if dup {
                     out.push(("get_candidates-called-twice".into(), format!("package {}", u.pkgs[*n as usize].name)));
                 }
                 if !self.known_names.contains(n) {
@@ -64,9 +78,9 @@ impl<'a> TraceChecker<'a> {
                 }
             }
             Ev::DepsCall(s) => {
-                let c = self.deps_calls.entry(*s).or_insert(0);
-                *c += 1;
-                if *c > 1 {
+                *self.deps_calls.entry(*s).or_insert(0) += 1;
+                let dup = self.deps_answered.contains(s) || !self.deps_open.insert(*s);
+                if dup {
                     out.push(("get_dependencies-called-twice".into(), format!("solvable {}", u.solv_label(*s))));
                 }
                 let ok = self.soft.contains(s) || self.known_reqs.iter().any(|&r| self.rf.req_has(r, |x| x == *s));
@@ -75,6 +89,8 @@ impl<'a> TraceChecker<'a> {
                 }
             }
             Ev::DepsRet(s) => {
+                self.deps_open.remove(s);
+                self.deps_answered.insert(*s);
                 if let Deps::Known { reqs, cons } = &u.solvs[*s as usize].deps {
                     self.known_reqs.extend(reqs.iter().copied());
                     self.known_names.extend(self.rf.names_of(reqs, cons));
@@ -91,7 +107,7 @@ impl Monitor for C09 {
         "C09"
     }
     fn rule(&self) -> String {
-        "cases = seeded hint-free universes (conflict-poor, tiny, soft lists, constrains-heavy), 1-3 successive problems solved on ONE solver so that the provider log spans solves; an online trace checker consumes every provider event: get_dependencies only for soft solvables or matching candidates of a requirement obtained earlier in the log, get_candidates only for names mentioned by dependencies obtained earlier, each call at most once per solver; when the reference first-choice closure exists (C07 precondition, first problem, no soft) the fetched sets must be EXACTLY the closure / the names it and the root mention. distinct = content hash; non-trivial = distinct conflict-free case in which at least one lower-ranked candidate existed and stayed unfetched".into()
+        "cases = seeded hint-free universes (conflict-poor, tiny, soft lists, constrains-heavy), 1-3 successive problems solved on ONE solver so that the provider log spans solves; an online trace checker consumes every provider event: get_dependencies only for soft solvables or matching candidates of a requirement obtained earlier in the log, get_candidates only for names mentioned by dependencies obtained earlier, each call at most once per solver (a request is a repeat if the provider already ANSWERED it, or if it is issued twice within one solve; a third of the multi-problem cases has a transient cancellation signal at a random poll, after which the sequence continues); when the reference first-choice closure exists (C07 precondition, first problem, no soft) the fetched sets must be EXACTLY the closure / the names it and the root mention. distinct = content hash; non-trivial = distinct conflict-free case in which at least one lower-ranked candidate existed and stayed unfetched".into()
     }
     fn cases(&self, tier: Tier) -> u64 {
         tier.pick(480_000, 9_600_000)
@@ -117,7 +133,14 @@ impl Monitor for C09 {
             }
             problems.push(q);
         }
-        let opts = if r.chance(1, 3) { async_opts(r) } else { SolveOpts::default() };
+        let mut opts = if r.chance(1, 3) { async_opts(r) } else { SolveOpts::default() };
+        // a transient cancellation signal somewhere in the sequence: the solve that sees it ends
+        // as Cancelled, the later ones must not ask again for anything that was answered
+        if problems.len() >= 2 && r.chance(1, 3) {
+            opts.cancel = Cancel::Transient(r.below(30) as usize);
+            // solve the first problem again at the end: everything it needs was asked for before
+            problems.push(p.clone());
+        }
         C09Case { family: name.into(), u, problems, opts }
     }
     fn check(&self, c: &C09Case, ctx: &mut Ctx) {
@@ -189,5 +212,33 @@ impl Monitor for C09 {
             }
         }
         ctx.rep.add("events-consumed", checker.events);
+        // at-most-once also when the PROVIDER fetches through the solver's cache (sort_candidates
+        // querying dependencies of the solvables it sorts) while the solver's own requests are
+        // pending: only the at-most-once rule is judged here (what a provider asks for on its own
+        // account is not the solver's laziness)
+        if h % 4 == 0 {
+            let opts = SolveOpts { mode: Mode::Async(random_policy(&mut crate::gener::Rng::new(h))), pause_mask: PAUSE_ALL, ..SolveOpts::default() };
+            let mut sess = Session::new(u.clone(), &opts);
+            sess.prov().reentrant_sort.set(true);
+            let mut vio = vec![];
+            let mut chk = TraceChecker::new(&rf);
+            for p in c.problems.iter().take(2) {
+                ctx.rep.evaluations += 1;
+                let out = sess.solve(p);
+                note_outcome(ctx.rep, &out);
+                if matches!(out, Outcome::Panic(_) | Outcome::Deadlock | Outcome::Budget) {
+                    break;
+                }
+            }
+            for e in &sess.log() {
+                chk.feed(e, &mut vio);
+            }
+            ctx.rep.count("sequences-with-provider-side-cache-queries");
+            for (k, d) in vio {
+                if k.ends_with("called-twice") {
+                    ctx.violation(format!("{k} (provider queries the cache from sort_candidates)"), d);
+                }
+            }
+        }
     }
 }
